@@ -10,7 +10,7 @@ props = [c["property_id"] for c in json.load(open(os.path.join(VERIF, "MANIFEST.
 env = dict(os.environ, GOFLAGS="-mod=mod", GOPROXY="off", GOSUMDB="off", GOTOOLCHAIN="local", GOWORK="off")
 def sh(cmd, **kw):
     return subprocess.run(cmd, shell=True, stdout=subprocess.PIPE, stderr=subprocess.STDOUT, text=True, **kw)
-seeds = sorted(glob.glob(os.path.join(root, "*", "m*", "patch.diff")) + glob.glob(os.path.join(root, "*", "patch.diff")))
+seeds = sorted(glob.glob(os.path.join(root, "*", "[mb]*", "patch.diff")) + glob.glob(os.path.join(root, "*", "patch.diff")))
 def one(patch):
     sid = os.path.relpath(os.path.dirname(patch), root)
     if sel and not any(sid.startswith(s) for s in sel):
@@ -41,7 +41,7 @@ with cf.ThreadPoolExecutor(max_workers=6) as ex:
     for res in ex.map(one, seeds):
         if res is None: continue
         sid, fired, detail = res
-        own = sid.split("/")[0]
+        own = sid[:3]
         if isinstance(fired, str):
             print(f"{sid}: {fired} {detail}"); continue
         status = "CAUGHT" if own in fired else ("MISSED" if own in props else "unclaimed")
